@@ -665,7 +665,7 @@ class TFLiteSupportedOperators:
     @classmethod
     @docstring_format_args(filter_range)
     def constraint_filter_range(cls, op):
-        "Kernel filter values for both width and height must be in the range [{}, {}]"
+        "SAME padding: Kernel filter values for both width and height must be in the range [{}, {}]"
         if op.attrs["padding"] == Padding.SAME:
             sw, _ = op.get_kernel_stride()
             w = op.kernel.width
